@@ -286,6 +286,76 @@ func checkC10(c *Check) {
 			}
 		}
 	}
+	// what is remembered: the entry itself (a pointer) or, field by field, its
+	// revocation time plus whatever else is kept of it (scalar form)
+	remembered := ent
+	holdFlag := ""
+	if latestVar == "" {
+		for _, s := range pg.States {
+			for _, e := range s.Out {
+				for _, l := range e.Labels {
+					if l.Kind == "assign" && l.T2 != nil && l.T2.Key() == ent+".RevocationTime" && l.Node.Kind == NAssign && l.Node.Note == "" && inBody[s] && l.T != nil && l.T.V != nil && l.T.V.Obj != nil {
+						latestVar = l.Key
+						remembered = ent + ".RevocationTime"
+					}
+				}
+			}
+		}
+		if latestVar != "" {
+			// every other variable that keeps something of the current entry across iterations is
+			// written in exactly the iterations that write the remembered time (one entry, not a mix)
+			timeAssign := LP{Desc: "remember the entry's revocation time", F: func(l Label) bool {
+				return l.Kind == "assign" && l.Key == latestVar
+			}}
+			companions := map[string]bool{}
+			boolVals := map[string]bool{}
+			for _, s := range pg.States {
+				if !inBody[s] {
+					continue
+				}
+				for _, e := range s.Out {
+					for _, l := range e.Labels {
+						if l.Kind == "assign" && l.Key != latestVar && l.Node.Kind == NAssign && l.Node.Note == "" && l.T != nil && l.T.V != nil && l.T.V.Obj != nil && l.T2 != nil && declaredBeforeLoop(pg, E, l.T.V) {
+							companions[l.Key] = true
+							if k := l.T2.Key(); k == "true" || k == "false" {
+								boolVals[l.Key+"="+k] = true
+							}
+						}
+					}
+				}
+			}
+			for _, cv := range sortedKeys(companions) {
+				cv := cv
+				compAssign := LP{Desc: "write " + cv, F: func(l Label) bool { return l.Kind == "assign" && l.Key == cv && l.Node != nil && l.Node.Note == "" }}
+				p1, bad1 := iterationWithOnly(pg, E, body, timeAssign, compAssign)
+				p2, bad2 := iterationWithOnly(pg, E, body, compAssign, timeAssign)
+				var det []string
+				if bad1 {
+					det = append(append(det, "an iteration writes the remembered time but not "+cv+":"), pg.describePath(p1, 20)...)
+				}
+				if bad2 {
+					det = append(append(det, "an iteration writes "+cv+" but not the remembered time:"), pg.describePath(p2, 20)...)
+				}
+				c.add("O-C10.4", "remembered fields belong to one entry: "+cv, "the remembered revocation time and "+cv+" are always written together, from the same entry", !bad1 && !bad2, "", det...)
+			}
+			c.floor("companion fields of the remembered time", 1, len(companions))
+			// the flag that keeps "the remembered entry is a hold": written true exactly for reason 6
+			for _, cv := range sortedKeys(companions) {
+				if boolVals[cv+"=true"] && boolVals[cv+"=false"] {
+					holdFlag = cv
+				}
+			}
+			if holdFlag != "" {
+				setTo := func(val string) LP {
+					return LP{Desc: holdFlag + " := " + val, F: func(l Label) bool {
+						return l.Kind == "assign" && l.Key == holdFlag && l.T2 != nil && l.T2.Key() == val && l.Node != nil && l.Node.Note == ""
+					}}
+				}
+				c.within(pg, "O-C10.4", "hold flag set only for reason certificateHold", "the flag is set to true only for an entry whose reason is certificateHold", E, A("+Eq(6, "+ent+".ReasonCode)"), setTo("true"))
+				c.within(pg, "O-C10.4", "hold flag cleared only for another reason", "the flag is set to false only for an entry whose reason is not certificateHold", E, A("-Eq(6, "+ent+".ReasonCode)"), setTo("false"))
+			}
+		}
+	}
 	if latestVar == "" {
 		c.undecided("O-C10.4", "remembered temporary entry", "no variable remembers a matching temporary entry inside the scan", "")
 	} else {
@@ -297,7 +367,7 @@ func checkC10(c *Check) {
 				for _, l := range e.Labels {
 					if l.Kind == "assign" && l.Key == latestVar {
 						latestAssigns = append(latestAssigns, e.To)
-						if l.T2 == nil || l.T2.Key() != ent {
+						if l.T2 == nil || l.T2.Key() != remembered {
 							badAssign = append(badAssign, fmt.Sprintf("%s: assigned %s", c.P.pos(l.Node.Pos), l.T2.Key()))
 						}
 					}
@@ -306,7 +376,7 @@ func checkC10(c *Check) {
 		}
 		c.add("O-C10.4", "remembered entry is the current entry", "inside the scan the remembered temporary entry is only ever set to the current entry", len(badAssign) == 0, "", badAssign...)
 		isAssign := LP{Desc: "remember current entry", F: func(l Label) bool {
-			return l.Kind == "assign" && l.Key == latestVar && l.T2 != nil && l.T2.Key() == ent
+			return l.Kind == "assign" && l.Key == latestVar && l.T2 != nil && l.T2.Key() == remembered
 		}}
 		older := AnyOf(A("+IsNil("+oldEnt+")"), A("+TLt("+oldEnt+".RevocationTime, "+ent+".RevocationTime)"), LP{Desc: "nothing remembered yet", F: func(l Label) bool { return false }})
 		for _, g := range []struct {
@@ -323,19 +393,33 @@ func checkC10(c *Check) {
 		// final verdicts
 		c.mustPass(pg, "O-C10.4", "post-scan Revoked: after all entries", "the Revoked verdict after the scan", postRev, RangeDone(E))
 		c.mustPass(pg, "O-C10.4", "post-scan Revoked: something remembered", "the Revoked verdict after the scan", postRev, isAssign)
+		if remembered != ent {
+			// scalar form: the reason was tested when the entry was remembered and lives on in the hold flag
+			if holdFlag == "" {
+				c.undecided("O-C10.4", "post-scan Revoked: remembered reason is certificateHold", "the remembered entry is kept field by field but no flag keeps whether its reason is certificateHold", "")
+			} else {
+				anySet := LP{Desc: "write " + holdFlag, F: func(l Label) bool {
+					return l.Kind == "assign" && l.Key == holdFlag && l.Node != nil && l.Node.Note == ""
+				}}
+				setTo := func(val string) LP {
+					return LP{Desc: holdFlag + " := " + val, F: func(l Label) bool { return anySet.F(l) && l.T2 != nil && l.T2.Key() == val }}
+				}
+				c.noPathFrom(pg, "O-C10.4", "post-scan Revoked: remembered reason is certificateHold", "after the flag was cleared the scan ends Revoked (after the loop) only if a later entry set it again", setTo("false"), postRev, ptr(anySet))
+				c.noPathFrom(pg, "O-C10.4", "OK after a remembered entry only if it is not a hold", "after the flag was set the scan ends OK only if a later entry cleared it", setTo("true"), okRets, ptr(anySet))
+			}
+			return10B(c, pg, certP, match, ext, unm)
+			if litTerm != nil {
+				checkIterator(c, pg, litTerm)
+			} else {
+				checkEntryList(c, top, rootOfInst(inst), pg, E)
+			}
+			return
+		}
 		c.mustPass(pg, "O-C10.4", "post-scan Revoked: remembered reason is certificateHold", "the Revoked verdict after the scan", postRev, A("+Eq(6, "+oldEnt+".ReasonCode)"))
 		c.noPathFrom(pg, "O-C10.4", "OK after a remembered entry only if it is not a hold", "after an entry was remembered the scan ends OK only if the remembered reason is not certificateHold", isAssign, okRets, ptr(AnyOf(A("-Eq(6, "+oldEnt+".ReasonCode)"), A("+IsNil("+oldEnt+")"))))
 	}
 
-	// B side: rejections (errors) of the scan
-	c.justify(pg, "O-C10.B", errorOrigins(pg, 1), []Viol{
-		{Name: "nil argument", All: []LP{AnyOf(A("+IsNil("+certP+")"), LP{Desc: "+IsNil(param)", F: func(l Label) bool {
-			return l.Kind == "atom" && l.Pol && strings.HasPrefix(l.Key, "IsNil(p")
-		}})}},
-		{Name: "invalidity date of a matching entry does not decode", All: []LP{match, A("+OidEq([encoding/asn1.ObjectIdentifier: 2, 5, 29, 24], " + ext + ".Id)"), A("-IsNil(" + unm + "#1)")}},
-		{Name: "invalidity date of a matching entry has trailing data", All: []LP{match, A("+OidEq([encoding/asn1.ObjectIdentifier: 2, 5, 29, 24], " + ext + ".Id)"), A("-Empty(" + unm + "#0)")}},
-		{Name: "unknown critical extension on a matching entry", All: []LP{match, A("-OidEq([encoding/asn1.ObjectIdentifier: 2, 5, 29, 24], " + ext + ".Id)"), A("+Truth(" + ext + ".Critical)")}},
-	}, originName)
+	return10B(c, pg, certP, match, ext, unm)
 
 	// O-C10.6 the entries scanned: the iterator literal, or the list built by the caller
 	if litTerm != nil {
@@ -556,4 +640,102 @@ func emptyListTerm(t *Term) bool {
 		}
 	}
 	return false
+}
+
+// declaredBeforeLoop: the variable is declared outside the range loop over E
+// (so it carries its value from one iteration to the next).
+func declaredBeforeLoop(pg *PG, E string, v *Var) bool {
+	for _, n := range pg.G.Nodes {
+		if n.Kind == NRange && n.First && n.Pos.IsValid() {
+			for _, s := range pg.States {
+				if s.Node != n {
+					continue
+				}
+				for _, e := range s.Out {
+					if e.has(RangeNext(E).F) || e.has(RangeDone(E).F) {
+						return v.Obj.Pos() < n.Pos
+					}
+				}
+			}
+		}
+	}
+	return false
+}
+
+// iterationWithOnly: is there a path through one iteration of the loop over E
+// (from a body start to the next head, the end of the loop or a return) that
+// passes an edge matching a and no edge matching b?
+func iterationWithOnly(pg *PG, E string, body []*PState, a, b LP) ([]*PEdge, bool) {
+	type node struct {
+		s     *PState
+		after bool
+	}
+	prev := map[node]*PEdge{}
+	prevN := map[node]node{}
+	seen := map[node]bool{}
+	var queue []node
+	for _, s := range body {
+		n := node{s, false}
+		if !seen[n] {
+			seen[n] = true
+			queue = append(queue, n)
+		}
+	}
+	build := func(n node, last *PEdge) []*PEdge {
+		var path []*PEdge
+		if last != nil {
+			path = append(path, last)
+		}
+		for {
+			e, ok := prev[n]
+			if !ok {
+				break
+			}
+			path = append([]*PEdge{e}, path...)
+			n = prevN[n]
+		}
+		return path
+	}
+	for len(queue) > 0 {
+		n := queue[0]
+		queue = queue[1:]
+		if n.after && len(n.s.Out) == 0 {
+			return build(n, nil), true // left the function inside the iteration
+		}
+		for _, e := range n.s.Out {
+			if pg.Infeasible != nil && e.has(pg.Infeasible.F) {
+				continue
+			}
+			if e.has(b.F) {
+				continue
+			}
+			if e.has(RangeNext(E).F) || e.has(RangeDone(E).F) {
+				if n.after {
+					return build(n, e), true
+				}
+				continue
+			}
+			m := node{e.To, n.after || e.has(a.F)}
+			if !seen[m] {
+				seen[m] = true
+				prev[m], prevN[m] = e, n
+				queue = append(queue, m)
+			}
+		}
+	}
+	return nil, false
+}
+
+// return10B: the B side of C10 - every rejection (error) of the scan is justified.
+func return10B(c *Check, pg *PG, certP string, match LP, ext, unm string) {
+	// B side: rejections (errors) of the scan
+	c.justify(pg, "O-C10.B", errorOrigins(pg, 1), []Viol{
+		{Name: "nil argument", All: []LP{AnyOf(A("+IsNil("+certP+")"), LP{Desc: "+IsNil(param)", F: func(l Label) bool {
+			return l.Kind == "atom" && l.Pol && strings.HasPrefix(l.Key, "IsNil(p")
+		}})}},
+		{Name: "invalidity date of a matching entry does not decode", All: []LP{match, A("+OidEq([encoding/asn1.ObjectIdentifier: 2, 5, 29, 24], " + ext + ".Id)"), A("-IsNil(" + unm + "#1)")}},
+		{Name: "invalidity date of a matching entry has trailing data", All: []LP{match, A("+OidEq([encoding/asn1.ObjectIdentifier: 2, 5, 29, 24], " + ext + ".Id)"), A("-Empty(" + unm + "#0)")}},
+		{Name: "unknown critical extension on a matching entry", All: []LP{match, A("-OidEq([encoding/asn1.ObjectIdentifier: 2, 5, 29, 24], " + ext + ".Id)"), A("+Truth(" + ext + ".Critical)")}},
+	}, originName)
+
 }
